@@ -1671,23 +1671,43 @@ type wireResult struct {
 	raw    string
 }
 
-func upgrade(x *wsflate.Extension, req []byte, chunks []int) (wireResult, string) {
+// legacySelector returns the deprecated Extension callback configured next
+// to Negotiate (a migration leftover): 0 none, 1 approves everything, 2 only
+// permessage-deflate, 3 nothing. With Negotiate set the response must carry
+// the negotiator's answers only ("the returned non-zero extensions are sent
+// to the client"; both upgraders consult the deprecated selector only when
+// Negotiate is nil).
+func legacySelector(mode int) func(httphead.Option) bool {
+	switch mode {
+	case 1:
+		return func(httphead.Option) bool { return true }
+	case 2:
+		return func(o httphead.Option) bool { return string(o.Name) == extName }
+	case 3:
+		return func(httphead.Option) bool { return false }
+	}
+	return nil
+}
+
+var legacyNames = []string{"none", "all", "permessage-deflate", "nothing"}
+
+func upgrade(x *wsflate.Extension, req []byte, chunks []int, legacy int) (wireResult, string) {
 	rec := tx.NewRec()
-	u := ws.Upgrader{Negotiate: x.Negotiate}
+	u := ws.Upgrader{Negotiate: x.Negotiate, Extension: legacySelector(legacy)}
 	hs, err := u.Upgrade(tx.RW{Reader: tx.NewSrc(req, chunks), Writer: rec})
 	return readResponse("ws.Upgrader", hs, err, rec.Bytes())
 }
 
 // upgradeHTTP sends the same request bytes through net/http's request parser
 // and ws.HTTPUpgrader with a hijackable ResponseWriter.
-func upgradeHTTP(x *wsflate.Extension, req []byte) (wireResult, string) {
+func upgradeHTTP(x *wsflate.Extension, req []byte, legacy int) (wireResult, string) {
 	hr, perr := http.ReadRequest(bufio.NewReader(bytes.NewReader(req)))
 	if perr != nil {
 		return wireResult{}, fmt.Sprintf("VERIF-INFRA: net/http cannot parse the harness's request: %v", perr)
 	}
 	rec := tx.NewRec()
 	w := tx.NewHijackable(nil, rec, 0)
-	u := ws.HTTPUpgrader{Negotiate: x.Negotiate}
+	u := ws.HTTPUpgrader{Negotiate: x.Negotiate, Extension: legacySelector(legacy)}
 	_, _, hs, err := u.Upgrade(hr, w)
 	if w.Status != 0 || w.Body.Len() > 0 {
 		return wireResult{err: err}, fmt.Sprintf("ws.HTTPUpgrader answered through the ResponseWriter (status %d) instead of the hijacked connection", w.Status)
@@ -1719,15 +1739,16 @@ func readResponse(who string, hs ws.Handshake, err error, out []byte) (wireResul
 type wireCase struct {
 	Config  string   `json:"config"`
 	Headers []string `json:"sec_websocket_extensions"`
+	Legacy  string   `json:"legacy_extension_selector,omitempty"`
 	Resp    string   `json:"response_extensions,omitempty"`
 }
 
 // checkWire: the response carries exactly the answer the list oracle allows,
 // and it is the same answer as negotiating the accepted offer directly.
-func checkWire(cfg spec, items []item, headers []string, chunks []int) string {
+func checkWire(cfg spec, items []item, headers []string, chunks []int, legacy int) string {
 	req := request(headers)
 	x := wsflate.Extension{Parameters: cfg.lib()}
-	r, msg := upgrade(&x, req, chunks)
+	r, msg := upgrade(&x, req, chunks, legacy)
 	if msg == "" {
 		msg = judgeWire(cfg, items, r, &x)
 	}
@@ -1735,7 +1756,7 @@ func checkWire(cfg spec, items []item, headers []string, chunks []int) string {
 		return "ws.Upgrader: " + msg
 	}
 	y := wsflate.Extension{Parameters: cfg.lib()}
-	h, msg := upgradeHTTP(&y, req)
+	h, msg := upgradeHTTP(&y, req, legacy)
 	if msg == "" {
 		msg = judgeWire(cfg, items, h, &y)
 	}
@@ -1877,16 +1898,18 @@ func TestWire(t *testing.T) {
 		}
 		headers := headersFor(t, items)
 		chunks := gen.Chunks(t, "chunks")
+		legacy := rapid.IntRange(0, 3).Draw(t, "legacy")
 		hx.Eval()
 		cl := listClass(cfg, items)
 		hx.Class("wire/" + cl)
+		hx.Class("wire/legacy-selector=" + legacyNames[legacy])
 		if !strings.Contains(cl, "acceptable=0") {
 			hx.NonTrivial(hx.Hash("wire", cfg, headers), func() interface{} {
 				return wireCase{Config: cfg.String(), Headers: headers}
 			})
 		}
-		if msg := checkWire(cfg, items, headers, chunks); msg != "" {
-			t.Fatalf("%s\nconfig: %s\nSec-WebSocket-Extensions: %q", msg, cfg, headers)
+		if msg := checkWire(cfg, items, headers, chunks, legacy); msg != "" {
+			t.Fatalf("%s\nconfig: %s\nlegacy Extension selector: %s\nSec-WebSocket-Extensions: %q", msg, cfg, legacyNames[legacy], headers)
 		}
 	})
 }
@@ -1955,22 +1978,24 @@ func TestWireSplits(t *testing.T) {
 					headers = append(headers, renderList(group, (li+si)%4))
 					start = end
 				}
-				n++
+				n += 4
 				cl := listClass(cfg, items)
 				if len(headers) > 1 && !strings.Contains(cl, "malformed=0") {
 					hx.NonTrivial(hx.Hash("wiresplit", cfg, headers), func() interface{} {
 						return wireCase{Config: cfg.String(), Headers: headers}
 					})
 				}
-				if msg := checkWire(cfg, items, headers, nil); msg != "" {
-					hx.Failf(t, wireCase{Config: cfg.String(), Headers: headers}, "%s", msg)
-					return
+				for legacy := 0; legacy < 4; legacy++ {
+					if msg := checkWire(cfg, items, headers, nil, legacy); msg != "" {
+						hx.Failf(t, wireCase{Config: cfg.String(), Headers: headers, Legacy: legacyNames[legacy]}, "%s", msg)
+						return
+					}
 				}
 			}
 		}
 	}
 	hx.EvalN(n)
-	hx.Part(fmt.Sprintf("wire: %d configurations x all lists of 1..3 over a 6-element alphabet x every split over 1..3 header lines, both upgraders", len(cfgs)), int64(n), true)
+	hx.Part(fmt.Sprintf("wire: %d configurations x all lists of 1..3 over a 6-element alphabet x every split over 1..3 header lines x 4 legacy-selector settings, both upgraders", len(cfgs)), int64(n), true)
 }
 
 // TestWireGridSample: a deterministic slice of the grid through the Upgrader.
@@ -1984,13 +2009,14 @@ func TestWireGridSample(t *testing.T) {
 		cfg, of := allConfigs[k/len(allOffers)], allOffers[k%len(allOffers)]
 		it := pmd(of, k)
 		n++
-		if msg := checkWire(cfg, []item{it}, []string{render(it.El, k%4)}, nil); msg != "" {
-			hx.Failf(t, wireCase{Config: cfg.String(), Headers: []string{render(it.El, k%4)}}, "%s", msg)
+		legacy := (k / stride) % 4
+		if msg := checkWire(cfg, []item{it}, []string{render(it.El, k%4)}, nil, legacy); msg != "" {
+			hx.Failf(t, wireCase{Config: cfg.String(), Headers: []string{render(it.El, k%4)}, Legacy: legacyNames[legacy]}, "%s", msg)
 			return
 		}
 	}
 	hx.EvalN(n)
-	hx.Part(fmt.Sprintf("wire: every %d-th grid point through ws.Upgrader", stride), int64(n), true)
+	hx.Part(fmt.Sprintf("wire: every %d-th grid point through ws.Upgrader and ws.HTTPUpgrader", stride), int64(n), true)
 }
 
 // ---------------------------------------------------------------------------
